@@ -142,3 +142,6 @@ let render (l : coq_N list) : string =
 
 let split_ws (s : string) : string list =
   Stdlib.List.filter (fun x -> x <> "") (Stdlib.String.split_on_char ' ' (Stdlib.String.trim s))
+
+(* harness output of the current run, by case id (filled by main when given a third argument) *)
+let impl_lines : (string, string list list) Hashtbl.t = Hashtbl.create 64
